@@ -683,6 +683,18 @@ def run(ctx, load):
     ctx.floor('C05.tree-moves-keep-every-node', 9)
     # every operation of Array and List evaluated on small instances: the elements that leave are destructed once, those that stay are
     # neither dropped nor duplicated nor byte-copied from another container, a new slot is cleared and stamped before it is assigned
+    # an operation that is refused has built nothing: a key or element constructed before the refusal is owned by nobody and never finalised
+    # (mutation-before-raise analysis shared with C12)
+    from . import rules_c12
+    Pn = load(rules_c12.UNITS, 'default')
+    ctx.config = 'default'
+    ctx.borrow('C05.refused-operation-builds-nothing', 20, lambda: rules_c12.check_nopre(Pn, ctx),
+               only=lambda o: o['key'].split(':')[0].split('.')[0].startswith(('Tree', 'Table', 'List', 'Array')))
+    # a Table removal that shrinks the table on the way still counts what it holds (an entry the count does not cover is never iterated,
+    # so a later clear-by-iteration or copy loses or leaks it)
+    from .rules_c02 import check_resizing_ops
+    check_resizing_ops(P, ctx, 'C05.count-covers-every-entry')
+    ctx.floor('C05.count-covers-every-entry', 1)
     from . import seqmodel
     seqmodel.report_list_ops(P, ctx, 'C05.operations-keep-every-element', 'valid', site)
     seqmodel.report_list_ops(P, ctx, 'C05.operations-keep-every-element', 'valid', site, T='Array')
